@@ -5,7 +5,7 @@
    (Escape.v ~ format.rs escapers / parser.rs string processing) and layout (Pretty.v ~ pretty.rs).
    The user-visible property is decided by the end-to-end real-vs-real search of vplib/props/c17.py.
    This file contains ONLY the property theorems, each closed by `exact <lemma>`. *)
-From Quiver Require Import Base Ast Simplify SimplifyProofs SimplifyCompose Escape EscapeProofs Pretty PrettyProofs EscapePretty.
+From Quiver Require Import Base Ast Simplify SimplifyProofs SimplifyCompose Escape EscapeProofs Pretty PrettyProofs EscapePretty FormatFrag FormatFragProofs.
 
 (* ---- normalize_blocks ---------------------------------------------------------------------- *)
 (* compiler.rs:548: keep = |_| false, lift = true, group_consequences = false *)
@@ -108,3 +108,37 @@ Theorem C17_layout_content_perm : forall (d : doc) (width : nat) (ts : list toke
   layout d width = Some ts -> exists l, content_all Break d l /\ Permutation.Permutation (texts ts) l.
 Proof. exact layout_content_perm. Qed.
 Print Assumptions C17_layout_content_perm.
+
+(* ---- parse o print = id on the data-literal fragment (FormatFrag.v) ----------------------------------------- *)
+(* FormatFrag.v models BOTH the formatter's Doc construction (term_doc / tuple_doc / field_doc / chain_doc with its
+   head-flat-plus-container and `~>`-continuation layouts and the 50-column soft width / bracketed with its trailing
+   comma / break_if_wider_than / flatten / flat_width / sequence_doc + format_program for one statement) AND the
+   parser (program / chain / chain_inner / primary / tuple_term / tuple_field(_list) / identifier / tuple_name /
+   integer_literal / string_segments) on the fragment: integers, identifiers, single-line strings, nested anonymous
+   and named tuples with optional labels, chains. Both are compared with the real functions on generated inputs
+   at every run (exact output text; parsed ASTs). *)
+
+(* for EVERY width the formatter's output parses back to the same chain *)
+Theorem C17_frag_roundtrip : forall (c : fchain) (w : nat),
+  wf_chain c = true -> exists out, format_frag c w = Some out /\ parse_frag out = Some c.
+Proof. exact frag_roundtrip. Qed.
+Print Assumptions C17_frag_roundtrip.
+
+(* formatting the re-parsed output gives the same text again (print o parse o print = print) *)
+Theorem C17_frag_format_fixpoint : forall (c : fchain) (w : nat) (out : list Z),
+  wf_chain c = true -> format_frag c w = Some out ->
+  exists c', parse_frag out = Some c' /\ format_frag c' w = Some out.
+Proof. exact frag_format_fixpoint. Qed.
+Print Assumptions C17_frag_format_fixpoint.
+
+(* the parser only produces well-formed chains, hence: formatting ANY source text the (fragment) parser accepts is a
+   fixpoint of parse-then-format *)
+Theorem C17_parse_frag_wf : forall (s : list Z) (c : fchain), parse_frag s = Some c -> wf_chain c = true.
+Proof. exact parse_frag_wf. Qed.
+Print Assumptions C17_parse_frag_wf.
+
+Theorem C17_frag_source_fixpoint : forall (s : list Z) (c : fchain) (w : nat) (out : list Z),
+  parse_frag s = Some c -> format_frag c w = Some out ->
+  exists c', parse_frag out = Some c' /\ format_frag c' w = Some out.
+Proof. exact frag_source_fixpoint. Qed.
+Print Assumptions C17_frag_source_fixpoint.
